@@ -72,6 +72,14 @@ impl Stamina {
     }
 }
 
+#[cfg(rosu_pp_verif)]
+impl Stamina {
+    /// Verification hook: the strains `count_top_weighted_strains` sums over.
+    pub fn verif_object_strains(&self) -> &[f64] {
+        &self.strain_skill_object_strains
+    }
+}
+
 pub(super) struct StaminaEvaluator;
 
 impl StaminaEvaluator {
